@@ -41,8 +41,11 @@ import Darling.Derive.Outer
       `struct_fromMeta_placed_partial`         nested: `ListPlaced (some item.span) …` (absences show
                                                exactly the enclosing item's span)
       `corpus_struct_fromList_placed_partial`  for the parser `Env` assembles from any declaration
-    derived enum
-      `enum_item_placed_partial`, `corpus_enum_item_placed_partial`
+    derived enum (after the repair F29: no condition on the form of the item or on the leaves)
+      `enum_item_placed_partial`, `corpus_enum_item_placed_partial`   every leaf inside the selecting item
+      `enum_struct_variant_placed_partial`     tight reading: an absence inside `st(…)` shows exactly
+                                               the span of `st(…)` and the path `st`
+      `enum_fromList_placed_partial`           the enum at the root of an attribute set (≤ 1 item)
     element level (`extract` + `finishOuter`, the composition of every element-level `from_*`)
       `outer_placed_partial`, `validateBody_verdict`
     algebra (clause 4)
@@ -50,23 +53,29 @@ import Darling.Derive.Outer
       `leaf_span_survives_ops`, `shown_eq_nearest`, `flatten_shows_nearest`, `toSyn_shows_nearest`,
       `toSyn_unspanned_shows_path`
 
-  ## Discrepancies text / behaviour (section 9 has them as Lean `example`s; all reproduce on the
+  ## Discrepancies text / behaviour (section 9 has them as Lean `example`s; all reproduced on the
      pristine library, program and output below).  One root cause: **the `from_list` a derived enum
-     emits never attaches the span of the item that selects the variant** (only the unknown-variant
-     error does); it relies on a caller's default `from_meta` to span the result with *its* item.
+     emitted never attached the span of the item that selects the variant** (only the unknown-variant
+     error did); it relied on a caller's default `from_meta` to span the result with *its* item.
+     **Repaired (F29)**: in the single-item arm the emitted code now spans whatever the selected
+     variant's arm returns with the selecting item (`with_span` never replaces, so more specific
+     spans stay); the model follows (`enumFromList`).  D1, D3, D4 are positive statements now.
 
-    D1  form mismatch (`unit = 3` for a unit variant, `st = 1` for a struct variant): at the root of an
-        attribute set (enum behind `#[darling(flatten)]`, or `from_list` called directly) the leaf has
-        **no span and no path** although it concerns a present item; as an ordinary field the leaf gets
-        the span of the field's item, not of the offending item.
-        → side condition `FormFits` of `enum_item_placed_partial`, `FlattenPlaced` of the struct /
-          element-level theorems.
-    D2  a literal or a surplus item at the enum: same (unspanned at the root).
-    D3  a field missing *inside* `st(…)`: unspanned at the root although the enclosing item `st(…)`
-        is present ("only absences with no enclosing item … are unspanned").
-        → side condition `hno` of `enum_item_placed_partial`; caught by `LeafOk`'s "no path" clause.
-    D4  the same as a field `e(st(x = 1))`: the leaf shows the span of `e(…)`, the item that encloses
-        the enclosing item.  Item-level theorem true, tight reading false.
+    D1  (REPAIRED) form mismatch (`unit = 3` for a unit variant, `st = 1` for a struct variant): at the
+        root of an attribute set (enum behind `#[darling(flatten)]`, or `from_list` called directly)
+        the leaf had **no span and no path** although it concerns a present item; as an ordinary
+        field the leaf got the span of the field's item, not of the offending item.  Now: the span of
+        the offending item in both cases; `enum_item_placed_partial` lost its side condition
+        `FormFits`.  (`FlattenPlaced` of the struct / element-level theorems is still a hypothesis
+        because of D2; `enum_fromList_placed_partial` discharges it for an enum handed ≤ 1 item.)
+    D2  (stands) a literal or a surplus item at the enum: unspanned at the root — there is no single
+        item at fault, and the repair does not touch these errors.
+    D3  (REPAIRED) a field missing *inside* `st(…)`: was unspanned at the root although the enclosing
+        item `st(…)` is present ("only absences with no enclosing item … are unspanned").  Now it
+        shows the span of `st(…)`; `enum_item_placed_partial` lost its side condition on the leaves.
+    D4  (REPAIRED) the same as a field `e(st(x = 1))`: the leaf showed the span of `e(…)`, the item
+        that encloses the enclosing item.  Now it shows exactly the span of `st(…)`
+        (`enum_struct_variant_placed_partial`; the spans offered further out never replace it).
     O1  (observation) per-variant shape verdicts (`supports(enum_unit)` on `enum X { A, B{..}, C(..) }`)
         carry neither span nor path: two identical-looking messages, the variant is not named.
     O2  (observation) `into_iter()` on an unflattened bundle drops the bundle's span / location
@@ -164,7 +173,7 @@ fn main() {
 }
 ```
 
-  output:
+  output (pristine library, before the repair F29):
 
 ```
 == R::from_list: unit = 3
@@ -204,6 +213,25 @@ fn main() {
    leaf: Unsupported shape `one unnamed field`. Expected no fields. span: NONE
    diag: Unsupported shape `named fields`. Expected no fields.   at 0..0
    diag: Unsupported shape `one unnamed field`. Expected no fields. at 0..0
+```
+
+  the lines that differ with the repair F29 applied (same program; D2 and O1 unchanged):
+
+```
+== R::from_list: unit = 3
+   leaf: Unexpected meta-item format `non-path` span: 0..8 `unit = 3`
+== R::from_list: st = 1
+   leaf: Unexpected meta-item format `non-list` span: 0..6 `st = 1`
+== R::from_list: st(x = 1)
+   leaf: Missing field `y` at st span: 0..9 `st(x = 1)`
+== E::from_list: st(x = 1)
+   leaf: Missing field `y` at st span: 0..9 `st(x = 1)`
+== Elem::from_derive_input: #[my(unit = 3)] struct S;
+   leaf: Unexpected meta-item format `non-path` span: 5..13 `unit = 3`
+== Elem::from_derive_input: #[my(st(x = 1))] struct S;
+   leaf: Missing field `y` at st span: 5..14 `st(x = 1)`
+== Elem2::from_derive_input: #[my(h(e(st(x = 1))))] struct S;
+   leaf: Missing field `y` at h/e/st span: 9..18 `st(x = 1)`
 ```
 -/
 
@@ -1139,56 +1167,123 @@ theorem struct_fromMeta_placed_partial (r : SStruct ν) (hc : ConvTight r) (hf :
   Text: whatever a derived enum says about the one item `v(…)` / `v = …` / `v` that selects a
   variant concerns that item (its name, its form, its contents) or something missing *inside* it,
   so every leaf must show an explicit span inside that item ("inside the offending item itself";
-  "absent from a nested item: that enclosing item's span"). -/
+  "absent from a nested item: that enclosing item's span").
 
-/-- the item has the form its variant is read from: a bare word for a unit variant, a list for a
-    struct variant (a newtype variant hands the item to its field's type, any form) -/
-def FormFits (e : SEnum ν) (nested : Meta) : Prop :=
-  match e.arm nested.path'.toStr with
-  | none => True
-  | some v =>
-      match v.kind, nested with
-      | .unit _, .path _ => True
-      | .unit _, _ => False
-      | .struct _, .list _ _ _ _ _ _ => True
-      | .struct _, _ => False
-      | .newtype _ _ _, _ => True
+  Since the repair F29 the emitted `from_list` attaches the span of the selecting item to whatever
+  the selected variant's arm returns (`with_span` never replaces), and the statements below need
+  neither a condition on the *form* of the item nor one on the leaves. -/
 
 /-- the pieces of a variant honour the contracts of the text -/
 def VariantTight (v : SVariant ν) : Prop :=
   match v.kind with
   | .unit _ => True
-  | .newtype fm _ _ => ∀ m : Meta, m.spanWF = true →
-      (fm m).ErrsIn m.span ∧ ∀ e, fm m = .err e → e.span.isSome = true
+  | .newtype fm _ _ => ∀ m : Meta, m.spanWF = true → (fm m).ErrsIn m.span
   | .struct s => ConvTight s ∧ FlattenPlaced s ∧ PostOk s
-
-/-- the class used inside a variant: inside one of the variant's items, or a span-less absence
-    (whatever its path) -/
-def WeakOk (present : List Span) (l : Err) : Prop :=
-  (∃ p ∈ present, SpannedWithin p l) ∨ (IsAbsence l ∧ l.span = none)
-
-theorem leafClass_weak (items : List NestedMeta) : LeafClass items (WeakOk (presentOf items)) where
-  item := fun it hit _ hl => Or.inl ⟨it.span, List.mem_map.mpr ⟨it, hit, rfl⟩, hl⟩
-  absent := fun _ ha hs _ => Or.inr ⟨ha, hs⟩
-
-theorem locClosed_weak (present : List Span) : LocClosed (WeakOk present) := by
-  intro l loc h
-  rcases h with ⟨x, hx, hw⟩ | ⟨ha, hs⟩
-  · exact Or.inl ⟨x, hx, at_within x l loc hw⟩
-  · exact Or.inr ⟨(isAbsence_at l loc).mpr ha, by rw [at_span]; exact hs⟩
 
 theorem unknownErr_unspanned (e : SEnum ν) (name : String) : (e.unknownErr name).Unspanned := by
   unfold SEnum.unknownErr
   split <;> rfl
 
-/-- **C03, derived enum, one selecting item (side conditions: the item has the form of its variant;
-    no leaf is a span-less absence).**  Then every leaf shows an explicit span inside the item. -/
+theorem ItemPlaced.withSpan {A : Span} {e : Err} (h : ItemPlaced A e) (s : Span) :
+    ItemPlaced A (e.withSpan s) := by
+  intro l' hl'
+  rw [intoVec_withSpan, List.mem_map] at hl'
+  obtain ⟨l, hl, rfl⟩ := hl'
+  obtain ⟨t, h1, h2⟩ := h l hl
+  rw [withSpan_keeps l t s h1]
+  exact ⟨t, h1, h2⟩
+
+/-- `ErrorCheck::with_location`: the variant's name goes in front of what the same check reports
+    without a location -/
+theorem finishStruct_loc_factor (r : SStruct ν) (hpost : PostOk r) (flattenHere : Bool) (loc : String)
+    (st : PState ν) (e : Err) (he : finishStruct r flattenHere (some loc) st = .err e) :
+    ∃ e0, finishStruct r flattenHere none st = .err e0 ∧ e = e0.at loc := by
+  unfold finishStruct at he ⊢
+  simp only [] at he ⊢
+  cases hs1 : (if flattenHere = true then flattenInit r st else Except.ok st) with
+  | error m => rw [hs1] at he; cases he
+  | ok st1 =>
+      rw [hs1] at he
+      simp only [] at he ⊢
+      cases hes : (checkMissing r.fields st1).errs with
+      | cons x xs =>
+          rw [hes] at he
+          simp only [] at he ⊢
+          cases hb : (Err.bundleErr (x :: xs) : Outcome ν) with
+          | ok v => rw [hb] at he; cases he
+          | panic m => rw [hb] at he; cases he
+          | err b =>
+              rw [hb] at he
+              simp only [Outcome.mapErr, Outcome.err.injEq] at he
+              exact ⟨b, rfl, he.symm⟩
+      | nil =>
+          rw [hes] at he
+          simp only [] at he
+          cases hk : initFields r (checkMissing r.fields st1) r.fields with
+          | ok kvs => rw [hk] at he; exact absurd he (hpost _ _)
+          | err e0 => exact absurd hk (initFields_not_err r _ _ _)
+          | panic m => rw [hk] at he; cases he
+
+/-- the text's verdict on one flattened leaf of what an enum reports about the struct-variant item
+    `name(items…)` spanned `sp`: the leaf concerns one of `items` and shows an explicit span inside
+    that very item, or it reports something absent from `name(…)` — its path is the variant's name
+    and nothing more — and shows **exactly the span of `name(…)`**, the innermost item that
+    encloses the absence -/
+def VariantLeafOk (name : String) (sp : Span) (present : List Span) (l : Err) : Prop :=
+  (∃ p ∈ present, SpannedWithin p l) ∨ (IsAbsence l ∧ l.span = some sp ∧ l.locs = [name])
+
+theorem locs_at (l : Err) (loc : String) : (l.at loc).locs = loc :: l.locs := by
+  cases l <;> rfl
+
+/-- **C03, derived enum, struct variant, tight reading.**  The selecting item is the list
+    `name(items…)` and `name` selects a struct variant: every flattened leaf concerns one of
+    `items` and is spanned inside it, or is an absence from `name(…)` located under the variant's
+    name and showing exactly the span of `name(…)` — not the span of whatever encloses the enum
+    (discrepancy D4 before the repair), and never no span (D3). -/
+theorem enum_struct_variant_placed_partial (e : SEnum ν) (p : Path) (items : List NestedMeta)
+    (ts : Option Span) (tk : String) (sp : Span) (v : SVariant ν) (s : SStruct ν)
+    (harm : e.arm (Meta.list p items none ts tk sp).path'.toStr = some v) (hk : v.kind = .struct s)
+    (hc : ConvTight s) (hf : FlattenPlaced s) (hpost : PostOk s)
+    (hwf : ∀ n ∈ items, n.spanWF = true) (err : Err)
+    (he : enumFromList e [.item (.list p items none ts tk sp)] = .err err) :
+    ∀ l ∈ intoVec err, VariantLeafOk v.name sp (presentOf items) l := by
+  simp only [enumFromList, harm, dataArm, hk] at he
+  cases hcl : coreLoop s {} items with
+  | error m => rw [hcl] at he; cases he
+  | ok st =>
+      rw [hcl] at he
+      simp only [] at he
+      cases hfin : finishStruct s true (some v.name) st with
+      | ok x => rw [hfin] at he; cases he
+      | panic m => rw [hfin] at he; cases he
+      | err e1 =>
+          rw [hfin] at he
+          simp only [Outcome.mapErr, Outcome.err.injEq, Meta.span] at he
+          subst he
+          obtain ⟨e0, h0, rfl⟩ := finishStruct_loc_factor s hpost true v.name st e1 hfin
+          have hlp : ListPlaced none (presentOf items) e0 :=
+            finishStruct_placed (leafClass_listPlaced items) s hf hpost hwf true none (fun h => by cases h) st
+              (coreLoop_pinv (leafClass_listPlaced items) s hc items (fun n hn => ⟨hn, hwf n hn⟩) {} st
+                (pinv_init _ items) hcl) e0 h0
+          intro l' hl'
+          rw [intoVec_withSpan, intoVec_at, List.map_map, List.mem_map] at hl'
+          obtain ⟨l, hl, rfl⟩ := hl'
+          simp only [Function.comp]
+          rcases hlp l hl with ⟨x, hx, t, h1, h2⟩ | ⟨h1, h2, h3⟩
+          · have h1' : (l.at v.name).span = some t := by rw [at_span]; exact h1
+            exact Or.inl ⟨x, hx, t, by rw [withSpan_keeps _ t sp h1']; exact h1', h2⟩
+          · refine Or.inr ⟨(isAbsence_withSpan _ sp).mpr ((isAbsence_at l v.name).mpr h1),
+              withSpan_sets _ sp (by rw [at_span]; exact h2), ?_⟩
+            rw [locs_withSpan, locs_at, h3]
+
+/-- **C03, derived enum, one selecting item** (side conditions: only the contracts of the pieces
+    the variants are made of — `VariantTight`).  Whatever the form of the item, and whatever is
+    missing inside it, every leaf shows an explicit span inside the item. -/
 theorem enum_item_placed_partial (e : SEnum ν) (hv : ∀ v ∈ e.variants, VariantTight v)
-    (nested : Meta) (hwf : nested.spanWF = true) (hform : FormFits e nested) (err : Err)
-    (he : enumFromList e [.item nested] = .err err)
-    (hno : ∀ l ∈ intoVec err, IsAbsence l → l.span ≠ none) : ItemPlaced nested.span err := by
+    (nested : Meta) (hwf : nested.spanWF = true) (err : Err)
+    (he : enumFromList e [.item nested] = .err err) : ItemPlaced nested.span err := by
+  have he0 := he
   simp only [enumFromList] at he
-  unfold FormFits at hform
   cases ha : e.arm nested.path'.toStr with
   | none =>
       rw [ha] at he
@@ -1196,65 +1291,91 @@ theorem enum_item_placed_partial (e : SEnum ν) (hv : ∀ v ∈ e.variants, Vari
       subst he
       exact itemPlaced_spanned ((unknownErr_unspanned e _).allWithin nested.span)
   | some v =>
-      rw [ha] at he hform
-      simp only [] at he hform
+      rw [ha] at he
+      simp only [] at he
       have hvt := hv v (List.mem_of_find?_eq_some ha)
       unfold VariantTight at hvt
-      unfold dataArm at he
-      cases hk : v.kind with
-      | unit val =>
-          rw [hk] at he hform
-          cases nested with
-          | path p => cases he
-          | list p items bad ts tk sp => exact absurd hform id
-          | nameValue p x tk sp => exact absurd hform id
-      | newtype fm fn wrap =>
-          rw [hk] at he hvt
-          simp only [] at he hvt
-          have he1 := map_err_inv he
-          cases hfm : fm nested with
-          | ok x => rw [hfm] at he1; cases he1
-          | panic x => rw [hfm] at he1; cases he1
-          | err e0 =>
-              rw [hfm] at he1
-              simp only [Outcome.mapErr, Outcome.err.injEq] at he1
-              subst he1
-              exact (itemPlaced_of_top ((hvt nested hwf).1 e0 hfm) ((hvt nested hwf).2 e0 hfm)).at _
-      | struct s =>
-          rw [hk] at he hform hvt
-          simp only [] at he hvt
-          cases nested with
-          | path p => exact absurd hform id
-          | nameValue p x tk sp => exact absurd hform id
-          | list p items bad ts tk sp =>
-              simp only [Meta.spanWF, Bool.and_eq_true] at hwf
-              simp only [] at he
-              cases bad with
-              | some b =>
-                  obtain ⟨msg, bs⟩ := b
-                  simp only [Outcome.err.injEq] at he
-                  subst he
-                  intro l hl
-                  simp only [Err.at, intoVec, intoVecP_leaf, List.mem_singleton] at hl
-                  subst hl
-                  exact ⟨bs, rfl, hwf.1.2⟩
-              | none =>
-                  simp only [] at he
-                  have hmem := nestedWFList_mem items hwf.2
-                  cases hcl : coreLoop s {} items with
-                  | error m => rw [hcl] at he; cases he
-                  | ok st =>
-                      rw [hcl] at he
-                      simp only [] at he
-                      have hlp := finishStruct_placed (leafClass_weak items) s hvt.2.1 hvt.2.2
-                        (fun n hn => (hmem n hn).1) true (some v.name) (fun _ => locClosed_weak _) st
-                        (coreLoop_pinv (leafClass_weak items) s hvt.1 items
-                          (fun n hn => ⟨hn, (hmem n hn).1⟩) {} st (pinv_init _ items) hcl) err he
+      cases hd : dataArm v nested with
+      | ok x => rw [hd] at he; cases he
+      | panic m => rw [hd] at he; cases he
+      | err e1 =>
+          rw [hd] at he
+          simp only [Outcome.mapErr, Outcome.err.injEq] at he
+          subst he
+          unfold dataArm at hd
+          cases hk : v.kind with
+          | unit val =>
+              rw [hk] at hd
+              cases nested with
+              | path p => cases hd
+              | list p items bad ts tk sp =>
+                  simp only [Outcome.err.injEq] at hd; subst hd
+                  exact itemPlaced_spanned ((unsp_unsupportedFormat _).allWithin _)
+              | nameValue p x tk sp =>
+                  simp only [Outcome.err.injEq] at hd; subst hd
+                  exact itemPlaced_spanned ((unsp_unsupportedFormat _).allWithin _)
+          | newtype fm fn wrap =>
+              rw [hk] at hd hvt
+              simp only [] at hd hvt
+              have hd1 := map_err_inv hd
+              cases hfm : fm nested with
+              | ok x => rw [hfm] at hd1; cases hd1
+              | panic x => rw [hfm] at hd1; cases hd1
+              | err e0 =>
+                  rw [hfm] at hd1
+                  simp only [Outcome.mapErr, Outcome.err.injEq] at hd1
+                  subst hd1
+                  exact itemPlaced_spanned ((hvt nested hwf e0 hfm).at _)
+          | struct s =>
+              rw [hk] at hd hvt
+              simp only [] at hd hvt
+              cases nested with
+              | path p =>
+                  simp only [Outcome.err.injEq] at hd; subst hd
+                  exact itemPlaced_spanned ((unsp_unsupportedFormat _).allWithin _)
+              | nameValue p x tk sp =>
+                  simp only [Outcome.err.injEq] at hd; subst hd
+                  exact itemPlaced_spanned ((unsp_unsupportedFormat _).allWithin _)
+              | list p items bad ts tk sp =>
+                  simp only [Meta.spanWF, Bool.and_eq_true] at hwf
+                  cases bad with
+                  | some b =>
+                      obtain ⟨msg, bs⟩ := b
+                      simp only [Outcome.err.injEq] at hd
+                      subst hd
+                      exact itemPlaced_spanned ((leaf_allWithin _ _ hwf.1.2).at _)
+                  | none =>
+                      have hmem := nestedWFList_mem items hwf.2
+                      have ht := enum_struct_variant_placed_partial e p items ts tk sp v s ha hk hvt.1 hvt.2.1
+                        hvt.2.2 (fun n hn => (hmem n hn).1) _ he0
                       intro l hl
-                      rcases hlp l hl with ⟨x, hx, t, h1, h2⟩ | ⟨h1, h2⟩
+                      rcases ht l hl with ⟨x, hx, t, h1, h2⟩ | ⟨_, h2, _⟩
                       · obtain ⟨n, hn, rfl⟩ := List.mem_map.mp hx
                         exact ⟨t, h1, within_trans h2 (hmem n hn).2⟩
-                      · exact absurd h2 (hno l hl h1)
+                      · exact ⟨sp, h2, within_refl sp⟩
+
+/-- **C03, derived enum at the root of an attribute set** (the enum behind `#[darling(flatten)]`,
+    or `from_list` called directly), handed no item or one item: the leaves are placed as the text
+    demands of a list — inside the one item present, or the root-level absence "too few items"
+    with no span and no path.  (Two or more items and a bare literal: discrepancy D2, which
+    stands — there is no single item at fault.) -/
+theorem enum_fromList_placed_partial (e : SEnum ν) (hv : ∀ v ∈ e.variants, VariantTight v)
+    (outer : List NestedMeta) (hlen : outer.length ≤ 1) (hnl : ∀ l, NestedMeta.lit l ∉ outer)
+    (hwf : ∀ n ∈ outer, n.spanWF = true) (err : Err)
+    (he : enumFromList e outer = .err err) : ListPlaced none (presentOf outer) err := by
+  match outer, hlen, hnl, hwf, he with
+  | [], _, _, _, he =>
+      simp only [enumFromList, Outcome.err.injEq] at he
+      subst he
+      intro l hl
+      simp only [Err.new, intoVec, intoVecP_leaf, List.mem_singleton] at hl
+      subst hl
+      exact Or.inr ⟨rfl, rfl, rfl⟩
+  | [.lit l], _, hnl, _, _ => exact absurd (List.mem_singleton.mpr rfl) (hnl l)
+  | [.item nested], _, _, hwf, he =>
+      exact ListPlaced.of_item (List.mem_singleton.mpr rfl)
+        (enum_item_placed_partial e hv nested (hwf _ (List.mem_singleton.mpr rfl)) err he)
+  | _ :: _ :: _, hlen, _, _, _ => simp at hlen
 
 end structRecv
 
@@ -1726,22 +1847,21 @@ theorem corpusVariant_tight (env : Env.T) (hna : NoArrays env.oracle) (core : Op
           cases rest with
           | nil =>
               intro m hwf
-              exact ⟨(corpus_spansIn env m.span (noArrays_within hna m.span) f.ty).fromMeta m hwf (within_refl _),
-                hooksOf_metaTop env.oracle _ (recvHooks_metaTop env) f.ty m⟩
+              exact (corpus_spansIn env m.span (noArrays_within hna m.span) f.ty).fromMeta m hwf (within_refl _)
           | cons g rest => simp only []; rw [← hf]; exact strct _ _ rfl
 
-/-- **C03, derived enum of any corpus, one selecting item** (the same side conditions) -/
+/-- **C03, derived enum of any corpus, one selecting item**: whatever its form, whatever is missing
+    inside it, every leaf shows an explicit span inside the item (no condition on the input beyond
+    well-formed spans; the variants' own fields are not `flatten` fields) -/
 theorem corpus_enum_item_placed_partial (env : Env.T) (hna : NoArrays env.oracle) (core : Options.RCore)
     (variants : List Options.RVariant) (hnf : ∀ v ∈ variants, ∀ f ∈ v.fields, f.flatten = false)
     (fw : Option (Outcome Val)) (fn : Option Val)
     (nested : Meta) (hwf : nested.spanWF = true)
-    (hform : FormFits { variants := variants.map (corpusVariant env core), score := env.oracle.score,
-                        thr := env.thr, fromWord := fw, fromNone := fn } nested)
     (err : Err)
     (he : (enumHooks { variants := variants.map (corpusVariant env core), score := env.oracle.score,
-                       thr := env.thr, fromWord := fw, fromNone := fn }).fromList [.item nested] = .err err)
-    (hno : ∀ l ∈ intoVec err, IsAbsence l → l.span ≠ none) : ItemPlaced nested.span err := by
-  refine enum_item_placed_partial _ ?_ nested hwf hform err he hno
+                       thr := env.thr, fromWord := fw, fromNone := fn }).fromList [.item nested] = .err err) :
+    ItemPlaced nested.span err := by
+  refine enum_item_placed_partial _ ?_ nested hwf err he
   intro sv hsv
   simp only [List.mem_map] at hsv
   obtain ⟨rv, hrv, rfl⟩ := hsv
@@ -1906,50 +2026,74 @@ private def mStMissing (lo : Nat) : Meta :=
 private def mE : Meta := .list (xpth "e" 2 3) [.item (mStMissing 4)] none (some ⟨4, 13⟩) "st(x = 1)" ⟨2, 14⟩
 private def mH : Meta := .list (xpth "h" 0 1) [.item mE] none (some ⟨2, 14⟩) "e(st(x = 1))" ⟨0, 15⟩
 
-/-! ### D1 — a present item, no span, no path.
-    `#[my(unit = 3)]` read by a receiver whose `flatten` field is the enum: the complaint about
-    the form of `unit = 3` is unspanned and carries no path.  (`R::from_list`; the same leaf comes
-    out of `FromDeriveInput` with `#[darling(flatten)] e: E`.) -/
+/-! ### D1 (REPAIRED, F29) — a present item of the wrong form.
+    `#[my(unit = 3)]` / `#[my(st = 1)]` read by a receiver whose `flatten` field is the enum
+    (`R::from_list`; the same leaf comes out of `FromDeriveInput` with `#[darling(flatten)] e: E`):
+    the complaint about the form used to be unspanned; it now shows the span of the selecting
+    item — the offending item itself. -/
 example : (Env.recvHooks xEnv "R").fromList [.item mUnitNV]
-    = .err (.leaf (.unexpectedFormat "non-path") [] none) := rfl
+    = .err (.leaf (.unexpectedFormat "non-path") [] (some ⟨0, 8⟩)) := rfl
+example : mUnitNV.span = ⟨0, 8⟩ := rfl
 example : (Env.recvHooks xEnv "R").fromList [.item mStNV]
-    = .err (.leaf (.unexpectedFormat "non-list") [] none) := rfl
-/-- the text's list-level verdict fails on it -/
+    = .err (.leaf (.unexpectedFormat "non-list") [] (some ⟨0, 6⟩)) := rfl
+example : mStNV.span = ⟨0, 6⟩ := rfl
+/-- the text's list-level verdict now holds of it (it used to fail) … -/
 example : ∃ e, (Env.recvHooks xEnv "R").fromList [.item mUnitNV] = .err e
-    ∧ ¬ ListPlaced none (presentOf [.item mUnitNV]) e :=
-  ⟨_, rfl, fun h => not_leafOk_unspanned (l := .leaf (.unexpectedFormat "non-path") [] none) rfl
-    (fun ha => by cases ha) (h _ (List.mem_singleton.mpr rfl))⟩
-/-- … and so does the enum-level verdict: the form condition of `enum_item_placed_partial` is needed -/
-example : ∃ e, (Env.recvHooks xEnv "E").fromList [.item mUnitNV] = .err e ∧ ¬ ItemPlaced mUnitNV.span e :=
-  ⟨_, rfl, not_itemPlaced (l := .leaf (.unexpectedFormat "non-path") [] none) (List.mem_singleton.mpr rfl) rfl⟩
+    ∧ ListPlaced none (presentOf [.item mUnitNV]) e :=
+  ⟨_, rfl, fun l hl => by
+    have hl' : l = .leaf (.unexpectedFormat "non-path") [] (some ⟨0, 8⟩) := List.mem_singleton.mp hl
+    subst hl'
+    exact Or.inl ⟨⟨0, 8⟩, List.mem_singleton.mpr rfl, ⟨0, 8⟩, rfl, rfl⟩⟩
+/-- … and so does the enum-level verdict (`enum_item_placed_partial` no longer has a condition on
+    the form of the item; see the non-vacuity section for the theorem applied to such an item) -/
+example : ∃ e, (Env.recvHooks xEnv "E").fromList [.item mUnitNV] = .err e ∧ ItemPlaced mUnitNV.span e :=
+  ⟨_, rfl, fun l hl => by
+    have hl' : l = .leaf (.unexpectedFormat "non-path") [] (some ⟨0, 8⟩) := List.mem_singleton.mp hl
+    subst hl'
+    exact ⟨⟨0, 8⟩, rfl, rfl⟩⟩
 
-/-! ### D2 — a literal and a surplus item at the enum: present, unspanned -/
+/-! ### D2 (stands) — a literal and a surplus item at the enum: present, unspanned (there is no
+    single item at fault; the repair leaves these errors alone) -/
 example : (Env.recvHooks xEnv "E").fromList [.lit ⟨.str "lit", "\"lit\"", ⟨0, 5⟩⟩]
     = .err (.leaf (.unexpectedFormat "literal") [] none) := rfl
 example : (Env.recvHooks xEnv "R").fromList [.item (mStMissing 0), .item (.path (xpth "unit" 11 15))]
     = .err (.leaf (.tooManyItems 1) [] none) := rfl
 
-/-! ### D3 — absent from a nested item, yet unspanned.
+/-! ### D3 (REPAIRED, F29) — absent from a nested item.
     `#[my(st(x = 1))]`: `y` is missing *inside* `st(…)`, an item that is present and has a span;
-    the leaf carries the path `st` but no span (the text lets only root absences go unspanned). -/
+    the leaf carries the path `st` and used to carry no span; it now shows exactly the span of
+    `st(…)`, "that enclosing item's span". -/
 example : (Env.recvHooks xEnv "R").fromList [.item (mStMissing 0)]
-    = .err (.leaf (.missingField "y") ["st"] none) := rfl
+    = .err (.leaf (.missingField "y") ["st"] (some ⟨0, 9⟩)) := rfl
+example : (mStMissing 0).span = ⟨0, 9⟩ := rfl
+/-- the leaf is what `enum_struct_variant_placed_partial` describes: an absence, located under the
+    variant's name, showing exactly the span of `st(…)` -/
+example : VariantLeafOk "st" ⟨0, 9⟩ (presentOf [.item (.nameValue (xpth "x" 3 4) (.lit ⟨.int "1" "", "1", ⟨7, 8⟩⟩) "x = 1" ⟨3, 8⟩)])
+    (.leaf (.missingField "y") ["st"] (some ⟨0, 9⟩)) := Or.inr ⟨rfl, rfl, rfl⟩
+/-- the list-level and the enum-level verdicts now hold of it (`enum_item_placed_partial` no longer
+    has a condition on the leaves) -/
 example : ∃ e, (Env.recvHooks xEnv "R").fromList [.item (mStMissing 0)] = .err e
-    ∧ ¬ ListPlaced none (presentOf [.item (mStMissing 0)]) e :=
-  ⟨_, rfl, fun h => not_leafOk_pathed (l := .leaf (.missingField "y") ["st"] none) rfl
-    (fun hl => by cases hl) (h _ (List.mem_singleton.mpr rfl))⟩
-/-- the side condition `hno` of `enum_item_placed_partial` is needed -/
+    ∧ ListPlaced none (presentOf [.item (mStMissing 0)]) e :=
+  ⟨_, rfl, fun l hl => by
+    have hl' : l = .leaf (.missingField "y") ["st"] (some ⟨0, 9⟩) := List.mem_singleton.mp hl
+    subst hl'
+    exact Or.inl ⟨⟨0, 9⟩, List.mem_singleton.mpr rfl, ⟨0, 9⟩, rfl, rfl⟩⟩
 example : ∃ e, (Env.recvHooks xEnv "E").fromList [.item (mStMissing 0)] = .err e
-    ∧ ¬ ItemPlaced (mStMissing 0).span e :=
-  ⟨_, rfl, not_itemPlaced (l := .leaf (.missingField "y") ["st"] none) (List.mem_singleton.mpr rfl) rfl⟩
+    ∧ ItemPlaced (mStMissing 0).span e :=
+  ⟨_, rfl, fun l hl => by
+    have hl' : l = .leaf (.missingField "y") ["st"] (some ⟨0, 9⟩) := List.mem_singleton.mp hl
+    subst hl'
+    exact ⟨⟨0, 9⟩, rfl, rfl⟩⟩
 
-/-! ### D4 — absent from a nested item: the span of the *grand*-enclosing item.
-    `h(e(st(x = 1)))`: `y` is missing from `st(…)` (4..13); the leaf shows the span of `e(…)`
-    (2..14), the item that encloses `st(…)`, not "that enclosing item's span".  The item-level
-    theorem `recv_itemPlaced` holds (2..14 lies inside `h(…)`), the tight reading does not. -/
+/-! ### D4 (REPAIRED, F29) — absent from a nested item, the enum being an ordinary field.
+    `h(e(st(x = 1)))`: `y` is missing from `st(…)` (4..13); the leaf used to show the span of `e(…)`
+    (2..14), the item that encloses `st(…)`; it now shows 4..13, "that enclosing item's span": the
+    span attached by the enum is never replaced by the coarser ones the callers offer on the way
+    out (`e(…)` by the default `from_meta`, then the field's item). -/
 example : (Env.recvHooks xEnv "H").fromMeta mH
-    = .err (.leaf (.missingField "y") ["e", "st"] (some ⟨2, 14⟩)) := rfl
+    = .err (.leaf (.missingField "y") ["e", "st"] (some ⟨4, 13⟩)) := rfl
 example : (mStMissing 4).span = ⟨4, 13⟩ := rfl
+example : mE.span = ⟨2, 14⟩ := rfl
 
 /-! ### an observation outside the three operations the text names: `into_iter()` on a bundle that
     has not been flattened hands out the members as they are — the bundle's span (and location)
@@ -2055,20 +2199,30 @@ private def mStBad : Meta :=
      .item (.nameValue (xpth "b" 9 10) (.lit ⟨.int "2" "", "2", ⟨13, 14⟩⟩) "b = 2" ⟨9, 14⟩)]
     none (some ⟨3, 14⟩) "a(1), b = 2" ⟨0, 15⟩
 
-example : FormFits eEx mStBad := True.intro
-example : ¬ FormFits eEx mUnitNV := fun h => h
 example : ∃ e, enumFromList eEx [.item mStBad] = .err e ∧ (intoVec e).map Err.span = [some ⟨3, 7⟩] := ⟨_, rfl, rfl⟩
 example (e : Err) (he : enumFromList eEx [.item mStBad] = .err e) : ItemPlaced mStBad.span e :=
-  enum_item_placed_partial eEx eEx_tight mStBad (by decide) True.intro e he (by
-    have : e = .leaf (.unexpectedFormat "not a literal") ["st", "a"] (some ⟨3, 7⟩) := by
-      have h2 : enumFromList eEx [.item mStBad]
-          = .err (.leaf (.unexpectedFormat "not a literal") ["st", "a"] (some ⟨3, 7⟩)) := rfl
-      rw [h2] at he; cases he; rfl
-    subst this
-    intro l hl ha
-    simp only [intoVec, intoVecP_leaf, List.mem_singleton] at hl
-    subst hl
-    cases ha)
+  enum_item_placed_partial eEx eEx_tight mStBad (by decide) e he
+/-- the wrong form and a missing field (the former discrepancies D1, D3) are inside the theorem now -/
+example (e : Err) (he : enumFromList eEx [.item mUnitNV] = .err e) : ItemPlaced mUnitNV.span e :=
+  enum_item_placed_partial eEx eEx_tight mUnitNV (by decide) e he
+example : ∃ e, enumFromList eEx [.item mUnitNV] = .err e ∧ (intoVec e).map Err.span = [some ⟨0, 8⟩] := ⟨_, rfl, rfl⟩
+/-- `st(b = 2)` at 0..9: `a` is missing; the leaf shows exactly 0..9 -/
+private def mStNoA : Meta :=
+  .list (xpth "st" 0 2)
+    [.item (.nameValue (xpth "b" 3 4) (.lit ⟨.int "2" "", "2", ⟨7, 8⟩⟩) "b = 2" ⟨3, 8⟩)]
+    none (some ⟨3, 8⟩) "b = 2" ⟨0, 9⟩
+example : ∃ e, enumFromList eEx [.item mStNoA] = .err e
+    ∧ (intoVec e).map (fun l => (l.locs, l.span)) = [(["st"], some ⟨0, 9⟩)] := ⟨_, rfl, rfl⟩
+example (e : Err) (he : enumFromList eEx [.item mStNoA] = .err e) :
+    ∀ l ∈ intoVec e, VariantLeafOk "st" ⟨0, 9⟩ (presentOf [.item (.nameValue (xpth "b" 3 4) (.lit ⟨.int "2" "", "2", ⟨7, 8⟩⟩) "b = 2" ⟨3, 8⟩)]) l :=
+  enum_struct_variant_placed_partial eEx _ _ _ _ _ { name := "st", skip := false, kind := .struct sEx } sEx
+    rfl rfl sEx_tight sEx_flat sEx_post (by decide) e he
+/-- the enum at the root of an attribute set (behind `flatten`): no item, one item -/
+example (e : Err) (he : enumFromList eEx [] = .err e) : ListPlaced none (presentOf []) e :=
+  enum_fromList_placed_partial eEx eEx_tight [] (by decide) (fun _ h => by cases h) (fun _ h => by cases h) e he
+example (e : Err) (he : enumFromList eEx [.item mStNoA] = .err e) : ListPlaced none (presentOf [.item mStNoA]) e :=
+  enum_fromList_placed_partial eEx eEx_tight _ (by decide) (fun _ h => by cases List.mem_singleton.mp h)
+    (fun n h => by rw [List.mem_singleton.mp h]; decide) e he
 
 /-- an element-level receiver over `sEx` reading `#[my(...)]` -/
 private def oEx : SOuter Nat := { fields := sEx, attrNames := ["my"], forward := none, attrsField := none }
